@@ -85,7 +85,7 @@ def _site(ind, call_expr, catch_expr, pre=""):
         f"{i}try:\n"
         f"{i}    {call_expr}\n"
         f"{i}except BaseException as _e:\n"
-        f"{i}    _R((\"XS\", _m, type(_e).__name__))\n"
+        f"{i}    _R((\"XS\", _m, type(_e).__name__, _c))\n"
         f"{i}    if not {catch_expr} or type(_e) is GeneratorExit: raise\n"
     )
 
@@ -135,6 +135,15 @@ def render_body(f, ind, is_method_with_super=False):
         L.append(f"{j}elif _k == 4:")
         L.append(f"{j}    _P(_op[3])")
         L.append(_site(ind2 + 8, f"_inner{inner['fid']}(*_op[1], **_op[2])", "_op[4]").rstrip("\n"))
+    if body == "gen":
+        # 20: delegate to another generator (its yields travel up through this frame; the journal links the two calls)
+        L.append(f"{j}elif _k == 20:")
+        L.append(f"{j}    _P(_op[4]); _m = _M() + 1; _R((\"YF\", _c, _m))")
+        L.append(f"{j}    try:")
+        L.append(f"{j}        yield from _op[1](*_op[2], **_op[3])")
+        L.append(f"{j}    except BaseException as _e:")
+        L.append(f"{j}        _R((\"XS\", _m, type(_e).__name__, _c))")
+        L.append(f"{j}        if not _op[5] or type(_e) is GeneratorExit: raise")
     if body in ("gen", "agen"):
         L.append(f"{j}elif _k == 5:")
         L.append(f"{j}    _R((\"Y\", _c, _op[1]))")
@@ -157,7 +166,7 @@ def render_body(f, ind, is_method_with_super=False):
         L.append(f"{j}elif _k == 8:")
         L.append(f"{j}    _R((\"R\", _c, 7)); return 7")
     L.append(f"{j}elif _k == 9:")
-    L.append(f"{j}    raise _op[1]")
+    L.append(f"{j}    _R((\"RZ\", _c)); raise _op[1]")
     if names:
         L.append(f"{j}elif _k == 10:")
         L.append(f"{j}    _R((\"B\", _c, _op[1], _op[2]))")
@@ -202,7 +211,7 @@ def render_body(f, ind, is_method_with_super=False):
     L.append(f"{j}                    _h[4] = None; raise")
     L.append(f"{j}        elif _mode == 0: _h[0].send(None)")
     L.append(f"{j}        elif _mode == 1: _h[0].send(_op[3])")
-    L.append(f"{j}        elif _mode == 2: _h[0].throw(_op[3])")
+    L.append(f"{j}        elif _mode == 2: _R((\"TH\", _op[1])); _m = _M(); _h[0].throw(_op[3])")
     L.append(f"{j}        elif _mode == 3:")
     L.append(f"{j}            _h[0].close(); del _H[_op[1]]; _R((\"XC\", _op[1]))")
     L.append(f"{j}        else:")
@@ -211,10 +220,11 @@ def render_body(f, ind, is_method_with_super=False):
     L.append(f"{j}        del _H[_op[1]]")
     L.append(f"{j}    except BaseException as _e:")
     L.append(f"{j}        del _H[_op[1]]")
-    L.append(f"{j}        _R((\"XH\", _op[1], type(_e).__name__, _mode == 2 and _M() == _m))")
+    L.append(f"{j}        _R((\"XH\", _op[1], type(_e).__name__, _mode == 2 and _M() == _m, _c))")
     L.append(f"{j}        if not _op[4]:")
     L.append(f"{j}            _RUN.discard(_op[1]); raise")
     L.append(f"{j}    _RUN.discard(_op[1])")
+    L.append(f"{j}    if _mode == 2: _R((\"TE\", _op[1]))")
     L.append(f"{j}elif _k == 17:")
     L.append(f"{j}    _R((\"RND\", _c, _RND()))")
     if names and body != "agen":
@@ -240,7 +250,8 @@ def render_body(f, ind, is_method_with_super=False):
         L.append(f"{j}        else: _t.append(_op[2])")
         L.append(f"{j}    elif _ty is dict:")
         L.append(f"{j}        _R((\"MU\", _c, _t, dict(_t)))")
-        L.append(f"{j}        if _op[4] and _t: _t[next(iter(_t))] = _op[2]")
+        L.append(f"{j}        if _op[4] == 2 and _t: _t[_op[3]] = _t.pop(next(iter(_t)))   # rename a key: same size, other key set")
+        L.append(f"{j}        elif _op[4] and _t: _t[next(iter(_t))] = _op[2]")
         L.append(f"{j}        else: _t[_op[3]] = _op[2]")
         L.append(f"{j}    elif _ty is set: _R((\"MU\", _c, _t, set(_t))); _t.add(_op[3])")
     if f["fid"] == 0:
